@@ -261,7 +261,9 @@ pub fn run_map(ctx: &Ctx, dir: &std::path::Path, c: &Case, m: &Mat, vcf: bool) -
     }
     // half of the cases write to a file with -o instead of stdout
     let to_file = (c.k / 2 + m.samples.len() + c.ambig_mask as usize) % 2 == 1;
-    let out_name = if vcf { "map_out.vcf" } else { "map_out.aln" };
+    // the name of the output file is a name (a VCF called after the reference, an alignment called *.vcf.aln, ...):
+    // what is written is what -f says
+    let out_name = if vcf { ["map_out.vcf", "ref.fa.vcf", "calls.aln.vcf", "ref.fasta.k.vcf"][(c.k / 2 + m.reference.len()) % 4] } else { ["map_out.aln", "ref.vcf.aln", "calls.vcf.fa", "map_out.txt"][(c.k / 2 + m.reference.len()) % 4] };
     if to_file {
         // the output file already exists and is long: it must be replaced, not overwritten from the start
         cli::plant_stale_output(&dir.join(out_name));
